@@ -359,5 +359,32 @@ func Specs() map[string]*PropSpec {
 		nr("app/ante/evm", "VerifC08_EthAnte", "msgs", "2"))
 	add("C19", []string{"./x/epochs"}, "ucdao ledger over 3 denominations (more than one scaled page); epochs: one or two epochs, started or not, arbitrary epoch numbers / start heights / start times, exported at height H and imported at H+1 after an arbitrary downtime",
 		er("x/ucdao/keeper", "VerifC19_Ucdao", "accounts", "2", "denoms", "3"), nr("x/epochs", "VerifC19_Epochs"))
+	// ---- round 8
+	add("C09", []string{"./x/liquidvesting/types"}, "liquid-vesting split of a two-denomination schedule (the helper that rewrites a vesting account's periods on liquidation): every denomination keeps its amounts",
+		lt("VerifC11_Split", "n", "2", "denoms", "2"))
+	add("C11", []string{"./x/liquidvesting"}, "liquid vesting genesis: the denom counter and every stored denom survive export/import for any subset of ids present (a rewound counter would hand out the id of a live denom again)",
+		nr("x/liquidvesting", "VerifC19_Liquidvesting", "denoms", "2", "periods", "2"))
+	add("C17", []string{"./x/feemarket"}, "fee market genesis: the stored gas figure of the last block survives export/import unchanged (it is the limited figure already; the first base fee after a restart is computed from it)",
+		nr("x/feemarket", "VerifC19_Feemarket"))
+	add("C12", nil, "genesis import of a ledger over 2 accounts x 2 denominations with or without the optional total_balance field: the recorded total is the sum of the holders",
+		er("x/ucdao/keeper", "VerifC12_GenesisDerivesTotal"))
+	add("C02", []string{"./app"}, "the application's blocked-address list contains every available precompile address under the chain's address prefix (value attached to a direct precompile call is refused, so the signer is never journal-dirty around unmirrored payouts)",
+		nr("app", "VerifC02_PrecompilesBlocked"))
+	add("C01", []string{"./x/vesting/keeper"}, "the start time stored by ApplyVestingSchedule (new account / conversion / merge) is a UTC value, never one in the node's zone (it is rendered into events)",
+		vk("VerifC01_StoredTimesAreUTC"))
+	add("C08", []string{"./x/liquidvesting/keeper"}, "MsgLiquidate from a fully vested account whose grant also holds a second denomination: original vesting and both schedules keep that denomination, the account stays valid (a dropped denomination makes LockedCoins fail open)",
+		lk("VerifC11_LiquidateStep", "periods", "2", "otherDenom", "1"))
+	add("C09", []string{"./x/liquidvesting/keeper"}, "the same liquidation step (schedules of the remaining account still add up per denomination)",
+		lk("VerifC11_LiquidateStep", "periods", "2", "otherDenom", "1"))
+	add("C11", nil, "liquidation step with a second denomination in the grant",
+		lk("VerifC11_LiquidateStep", "periods", "2", "otherDenom", "1"))
+	add("C03", []string{"./crypto/ethsecp256k1"}, "PubKey.VerifySignature over the four things a signature can cover (sign bytes, current EIP-712 rendering, legacy rendering, something else) x each decoder accepting or refusing the document: a document the current decoder refuses is never accepted through the legacy layout",
+		er("crypto/ethsecp256k1", "VerifC03_Eip712FallbackOrder"))
+	add("C06", []string{"./x/evm/types"}, "MsgEthereumTx.GetSigners for the three transaction types with the unsigned From field empty / the signer / another account: the one signer is the recovered account (what gov, authz and interchain accounts use to decide authorship outside any ante handler)",
+		er("x/evm/types", "VerifC06_SignersIgnoreFromField"))
+	add("C03", []string{"./x/evm/types"}, "GetSigners of an Ethereum message ignores the unsigned From field",
+		er("x/evm/types", "VerifC06_SignersIgnoreFromField"))
+	add("C10", []string{"./x/erc20"}, "IBC middleware OnTimeoutPacket / OnAcknowledgementPacket with the ICS-20 refund and the keeper's re-conversion each failing or not: the callback returns an error exactly when one of them fails",
+		er("x/erc20", "VerifC10_IbcCallbacksPropagateFailure"))
 	return m
 }
